@@ -30,6 +30,7 @@ func Main(c *run.Ctx) {
 	}
 	c01.RunConfigs(c, "C02", cfgs, c.Pick(60, 300), c.Pick(150, 500), true)
 	c.Floor("blocks checked", 50, 0)
+	c.Floor("blocks of more than 50 MiB", 1, 0)
 	c.Floor("rows compared with submitted rows", 1000, 0)
 	c.Floor("single-chunk requests found whole in one successful block", 20, 0)
 	c.Floor("rows sent again after a failed INSERT compared field by field", 50, 0)
@@ -71,6 +72,17 @@ func Check(c *run.Ctx, wl chw.WorkCfg, h *chw.History) {
 			n = b.ColRows[0]
 		}
 		rows += len(b.Rows)
+		bytes := 0
+		for _, row := range b.Rows {
+			for _, cell := range row {
+				if sv, ok := cell.(string); ok {
+					bytes += len(sv)
+				}
+			}
+		}
+		if bytes > 50<<20 {
+			c.Floor("blocks of more than 50 MiB", 0, 1)
+		}
 		infl := "alone"
 		if b.InFlight > 0 {
 			infl = "concurrent"
